@@ -192,7 +192,18 @@ class Units:
             return r
         if isinstance(n, (ast.List, ast.Tuple)):
             if n.elts:
-                return self.same_all(n.elts, n, "list elements have different units", "list") if len(n.elts) > 1 else self.u(n.elts[0])
+                # a literal is a homogeneous vector only if its elements are numbers: records / tables (tuples holding strings, nested
+                # pairs, ...) are walked for their own sub-expressions but have no unit themselves.  min([...]) / max([...]) check
+                # their operands explicitly (SAME_ALL).
+                if any(isinstance(x, (ast.Tuple, ast.List, ast.Dict, ast.JoinedStr)) or (isinstance(x, ast.Constant) and isinstance(x.value, str)) for x in n.elts):
+                    for x in n.elts:
+                        self.u(x)
+                    return None
+                us = [self.u(x) for x in n.elts]
+                ks = [x for x in us if isinstance(x, U)]
+                if ks and all(k.same(ks[0]) for k in ks):
+                    return ks[0]
+                return None
             return None
         if isinstance(n, ast.Lambda):
             return None
